@@ -87,6 +87,25 @@ pub struct Sc13 {
     pub attack: Vec<usize>,
     /// attack every position (true) or a seeded sample of positions (false)
     pub full: bool,
+    /// 0: the backend creates its own salt; otherwise the repository / bucket already holds a salt
+    /// of another length (object store through the ordinary constructor, git)
+    #[serde(default)]
+    pub salt_kind: u8,
+}
+
+/// salts of other lengths than the 16 bytes this implementation generates (two of them agree in
+/// their first 16 bytes)
+fn preset_salt(kind: u8) -> Vec<u8> {
+    match kind {
+        1 => vec![],
+        2 => b"s".to_vec(),
+        3 => b"eight-by".to_vec(),
+        4 => b"fifteen-bytes-!".to_vec(),
+        5 => b"seventeen-bytes-!".to_vec(),
+        6 => b"sixteen-bytes-..plus".to_vec(),
+        7 => b"sixteen-bytes-..PLUS".to_vec(),
+        _ => (0u8..64).collect(),
+    }
 }
 
 fn payload(kind: u8, i: usize) -> Vec<u8> {
@@ -194,6 +213,24 @@ pub fn run_c13(scv: &Value, want_log: bool) -> RunResult {
                 None => block_on($f),
             }
         };
+    }
+    if sc.salt_kind != 0 {
+        let salt = preset_salt(sc.salt_kind);
+        if b == 12 {
+            objects.lock().unwrap().insert("salt".into(), (salt.clone(), crate::interpose::EPOCH0 as u64));
+            e.probe("preset_salt", 1);
+        } else if b == 3 {
+            // a repository initialised by another implementation of docs/src/git-sync.md
+            let git = |args: &[&str]| std::process::Command::new("git").args(args).current_dir(&git_dir).output().map(|o| o.status.success()).unwrap_or(false);
+            let _ = std::fs::create_dir_all(&git_dir);
+            let meta = serde_json::json!({"latest_version": Uuid::nil().as_simple().to_string(), "salt": base64::engine::general_purpose::STANDARD.encode(&salt)});
+            let ok = git(&["init", "-q"]) && git(&["config", "user.email", "other@local"]) && git(&["config", "user.name", "other"]) && git(&["symbolic-ref", "HEAD", "refs/heads/main"]) && std::fs::write(git_dir.join("meta"), serde_json::to_vec(&meta).unwrap()).is_ok() && git(&["add", "meta"]) && git(&["commit", "-q", "-m", "init"]);
+            if !ok {
+                e.v("harness", "git-preset".into(), "cannot prepare a git repository with a preset salt".into());
+                return finish(e);
+            }
+            e.probe("preset_salt", 1);
+        }
     }
     let mut srv = match open(&objects) {
         Ok(s) => s,
@@ -401,6 +438,8 @@ pub fn run_c13(scv: &Value, want_log: bool) -> RunResult {
             for k in others {
                 o.remove(&k);
             }
+            // (an earlier target's attack may have removed this one)
+            o.entry(s.place.clone()).or_insert((s.bytes.clone(), crate::interpose::EPOCH0 as u64));
         }
         let mut variants: Vec<(String, Vec<u8>)> = Vec::new();
         let positions: Vec<usize> = if sc.full { (0..s.bytes.len()).collect() } else { (0..s.bytes.len()).filter(|i| *i < 16 || rng.chance(1, 8) || *i + 20 > s.bytes.len()).collect() };
@@ -471,6 +510,17 @@ pub fn run_c13(scv: &Value, want_log: bool) -> RunResult {
                 }
             };
             e.trace.write_u64(got.is_err() as u64);
+            if let Ok(None) = &got {
+                // "rejected with an error rather than returned": a value that is present but does
+                // not open must not be passed off as absent either (a new replica would conclude
+                // that there is no snapshot / no further version)
+                e.v(
+                    "tamper.silent",
+                    format!("{}:{}:{kind}", bname(b), if s.fetch_parent.is_some() { "version" } else { "snapshot" }),
+                    format!("{} backend reported 'nothing there' for {} after the stored value was replaced ({kind}) instead of failing", bname(b), s.place),
+                );
+                break;
+            }
             if let Ok(Some(data)) = &got {
                 e.v(
                     "tamper.accepted",
@@ -568,7 +618,9 @@ pub fn gen_c13(seed: u64, i: u64, thorough: bool) -> Value {
     let versions: Vec<u8> = (0..n).map(|_| rng.below(5) as u8).collect();
     let snapshots: Vec<usize> = (0..n).filter(|_| rng.chance(1, 3)).collect();
     let attack = if thorough { vec![usize::MAX] } else { vec![rng.usize_below(8), rng.usize_below(8)] };
-    serde_json::to_value(Sc13 { check: "C13".into(), seed: s, backend, versions, snapshots, attack, full: thorough || rng.chance(1, 4) }).unwrap()
+    let full = thorough || rng.chance(1, 4);
+    let salt_kind = if (backend == 12 || backend == 3) && rng.chance(1, 2) { 1 + rng.below(8) as u8 } else { 0 };
+    serde_json::to_value(Sc13 { check: "C13".into(), seed: s, backend, versions, snapshots, attack, full, salt_kind }).unwrap()
 }
 
 pub fn shrink_c13(scv: &Value) -> Vec<Value> {
